@@ -57,6 +57,9 @@ def tasks(tier, pid):
         t += [('plate_transfer',) + c for c in PO.transfer_cases(tier)]
     if pid in ('C07', 'C17', 'C04'):
         t += [('plate_unary',) + c for c in PO.unary_cases(tier)]
+    if pid == 'C11':
+        # Plate.fill_to / PlateSlicer.fill_to: every addressed well gets Container.fill_to's result (and only those)
+        t += [('plate_unary',) + c for c in PO.unary_cases(tier) if c[0] == 'fill_to']
     if pid in ('C11', 'C03', 'C04', 'C10'):
         t += [('sol', 'dilute', c) for c in SOL.OPS['dilute'].cases(tier)]
     if pid in ('C12', 'C03', 'C04'):
